@@ -243,6 +243,9 @@ class Gen:
             if L > n > 1 and m.pars[qi][1] == "plain":
                 cands.append(("par", qi, ("s", 0, n)))
         cands.append(("num", float(r.choice([1.0, 2.0, 0.5, -1.0, 3.0, 0.25]))))
+        if r.random() < 0.15:
+            import math as _m
+            cands.append([("num", _m.pi, "pi"), ("num", _m.sqrt(2.0), "sqrt2"), ("num", _m.e, "E")][int(r.integers(0, 3))])
         if n > 1:
             # a scalar leaf that broadcasts
             cands.append(self.leaf(m, 1))
@@ -484,6 +487,9 @@ def build(m: GModel):
     def conv(a):
         op = a[0]
         if op == "num":
+            if len(a) > 2:                       # a symbolic constant: sympy keeps it as pi / sqrt(2) / E in the expression
+                import sympy as _sp
+                return {"pi": _sp.pi, "sqrt2": _sp.sqrt(2), "E": _sp.E}[a[2]]
             c = a[1]
             return int(c) if float(c).is_integer() else c
         if op == "var":
@@ -527,6 +533,12 @@ def build(m: GModel):
 def corpus():
     """hand-written models that run first on every check: minimised past misses and the structures seeded changes need"""
     C = []
+    import math as _m
+    # coefficients that are symbolic constants (pi, sqrt(2), E): their derivative blocks are constants without being Numbers
+    C.append(GModel("AE", [("x", [0.7, 1.3], None), ("z", [0.4, 0.9], None)], [],
+                    [("e0", "alg", ("sub", ("add", ("mul", ("num", _m.pi, "pi"), ("var", 0, ("w",))), ("mul", ("num", _m.sqrt(2.0), "sqrt2"), ("var", 1, ("w",)))),
+                                    ("num", _m.e, "E")), None),
+                     ("e1", "alg", ("sub", ("mul", ("num", _m.e, "E"), ("powi", ("var", 1, ("w",)), 2)), ("mul", ("num", _m.pi, "pi"), ("var", 0, ("i", 0)))), None)]))
     # a parameter that is 0 when the code is generated and multiplies a variable linearly (its Jacobian block is the parameter)
     C.append(GModel("AE", [("x", [0.7, 1.3], None), ("z", [0.4], None)],
                     [("k", "plain", dict(value=[0.0, 0.0])), ("g", "plain", dict(value=[0.0]))],
@@ -549,4 +561,8 @@ def corpus():
                     [("e0", "alg", ("add", ("add", ("powi", ("var", 0, ("w",)), 2), ("mul", ("var", 0, ("w",)), ("par", 0, ("w",)))),
                                     ("powi", ("var", 1, ("w",)), 2)), None),
                      ("e1", "alg", ("add", ("sub", ("var", 0, ("w",)), ("num", 1.0)), ("var", 1, ("i", 0))), None)]))
+    # two equations with non-zero second derivatives, declared in an order that is not the alphabetical order of their names
+    C.append(GModel("AE", [("x", [0.7, 1.3], None), ("s", [0.4], None)], [("c", "plain", dict(value=[1.5, 0.5]))],
+                    [("q_balance", "alg", ("sub", ("mul", ("powi", ("var", 0, ("w",)), 2), ("var", 1, ("w",))), ("par", 0, ("w",))), None),
+                     ("e_balance", "alg", ("sub", ("mul", ("powi", ("var", 1, ("w",)), 3), ("var", 0, ("i", 0))), ("num", 1.0)), None)]))
     return C
